@@ -14,7 +14,7 @@ CONSTANTS
   DirN <- Dir04
   MAXSEEK = 35
   SPECIAL_A = FALSE
-  Sample = 500
+  Sample = 12
   WithDetail <- NoDetail
 INVARIANTS NoViol Resolves
 CONSTRAINT Export
